@@ -56,7 +56,8 @@ def op(draw):
     o = {"op": k, "i": draw(st.integers(0, 5))}
     if k in ("subset", "remove"):
         o["field"] = draw(KEYF)
-        o["picks"] = draw(st.lists(st.integers(0, 7), min_size=1, max_size=3, unique=True))
+        o["picks"] = draw(st.one_of(st.lists(st.integers(0, 7), min_size=1, max_size=3, unique=True), st.lists(st.integers(0, 200), min_size=8, max_size=40, unique=True)))
+        o["as_array"] = draw(st.booleans())
         o["absent"] = draw(st.integers(0, 5)) == 0
         o["scalar"] = draw(st.booleans())
         if k == "subset":
@@ -208,7 +209,9 @@ def run(case):
             vals = list(dict.fromkeys(vals))
             if o["absent"] or not vals:
                 vals.append(99.0)
-            arg = vals[0] if (o["scalar"] and len(vals) == 1) else list(vals)
+            arg = vals[0] if (o["scalar"] and len(vals) == 1) else (np.array(vals, dtype=float) if o.get("as_array") and k == "remove" else list(vals))
+            if isinstance(arg, np.ndarray):
+                out.label("remove:values_as_ndarray", "remove:>=8_values" if len(vals) >= 8 else "remove:few_values")
             if k == "subset":
                 before = m.df.copy()
                 ok, r = call(out, "get_motl_subset", lambda: m.get_motl_subset(arg, feature_id=f, reset_index=o["reset_index"], return_df=o["return_df"]))
